@@ -452,13 +452,14 @@ def alg_cases(draw, rot=0, path=None):
             else "default"
     case["path"] = path
     case["dm"] = (draw(st.integers(0, 2)) + rot) % 3 != 2
-    ninv = 1 + draw(st.integers(0, 2))
+    # (Hypothesis' simplest example - all draws 0 - is the LARGEST file)
+    ninv = 3 - draw(st.integers(0, 2))
     names = list(NAMES)
     invokes = []
     recent_file = []          # entities used earlier in the file
     for inum in range(ninv):
         inv = _gen_invoke(draw, case, rot + inum, recent_file, path)
-        if draw(st.integers(0, 2)) != 0:
+        if (draw(st.integers(0, 2)) + rot + inum) % 3 != 0:
             base = names.pop((draw(st.integers(0, len(names) - 1)) + rot)
                              % len(names))
             base = _recase(base, draw(st.integers(0, 2))) \
@@ -474,7 +475,7 @@ def alg_cases(draw, rot=0, path=None):
 
 
 def _gen_invoke(draw, case, rot, recent_file, path):
-    ncalls = 1 + draw(st.integers(0, 3))
+    ncalls = 4 - draw(st.integers(0, 3))
     calls = []
     recent = []               # entities used in this invoke
     read_first = set()        # reduction variables read before being reduced
